@@ -263,8 +263,8 @@ func checkSymbolInfoAttach(c *core.Ctx, rule string) {
 	// Commit persists SymbolInfo only via Model.symbolInfo
 	if commit := c.Fn("(*" + pk + ".Coins).Commit"); commit != nil {
 		via := false
-		for _, s := range core.Sites(commit) {
-			if strings.HasSuffix(s.Callee, "rlp.EncodeToBytes") && strings.HasSuffix(core.Path(s.Arg(0)), ".symbolInfo") {
+		for _, s := range c.GroupSites(commit) {
+			if strings.HasSuffix(s.Callee, "rlp.EncodeToBytes") && strings.HasSuffix(core.Path(c.CallerArg(s.Arg(0))), ".symbolInfo") {
 				via = true
 			}
 		}
@@ -345,7 +345,7 @@ func checkEvict(c *core.Ctx, rule string) {
 					switch x := in.(type) {
 					case *ssa.Call:
 						if bi, ok := x.Call.Value.(*ssa.Builtin); ok && bi.Name() == "delete" {
-							if strings.Contains(core.Path(x.Call.Args[0]), ".") {
+							if strings.Contains(core.Path(core.NormCall(&x.Call).Args[0]), ".") {
 								out = append(out, x)
 							}
 						}
@@ -524,7 +524,7 @@ func checkLazyLoad(c *core.Ctx, rule string) {
 				continue
 			}
 			name := fn.Name()
-			if name == "Commit" || strings.HasPrefix(name, "Set") && strings.Contains(core.ShortFn(fn), "Deleted") {
+			if name == "Commit" || c.GroupRoot(fn).Name() == "Commit" || strings.HasPrefix(name, "Set") && strings.Contains(core.ShortFn(fn), "Deleted") {
 				continue
 			}
 			fns := append([]*ssa.Function{fn}, fn.AnonFuncs...)
@@ -577,8 +577,8 @@ func checkPersistAll(c *core.Ctx, rule string) {
 			}
 			switch x := y.(type) {
 			case *ssa.Call:
-				if sc := x.Call.StaticCallee(); sc != nil && sc.Signature.Recv() != nil && len(x.Call.Args) > 0 && !strings.Contains(core.CalleeName(&x.Call), "math/big") {
-					out[sc.String()+"@"+core.Unwrap(x.Call.Args[0]).Name()] = true
+				if sc := x.Call.StaticCallee(); sc != nil && sc.Signature.Recv() != nil && len(core.NormCall(&x.Call).Args) > 0 && !strings.Contains(core.CalleeName(core.NormCall(&x.Call)), "math/big") {
+					out[sc.String()+"@"+core.Unwrap(core.NormCall(&x.Call).Args[0]).Name()] = true
 				}
 			case *ssa.UnOp:
 				if fa, ok := x.X.(*ssa.FieldAddr); ok {
@@ -625,7 +625,7 @@ func checkPersistAll(c *core.Ctx, rule string) {
 					for _, blk := range g.Blocks {
 						for _, in := range blk.Instrs {
 							if call, ok := in.(*ssa.Call); ok {
-								cn := core.CalleeName(&call.Call)
+								cn := core.CalleeName(core.NormCall(&call.Call))
 								if strings.HasSuffix(cn, "iavl.MutableTree).Set") || strings.HasSuffix(cn, "iavl.MutableTree).Remove") {
 									writes[blk] = true
 								}
@@ -689,7 +689,7 @@ func checkPersistAll(c *core.Ctx, rule string) {
 							if iff != nil {
 								if bin, ok := iff.Cond.(*ssa.BinOp); ok && (bin.Op == token.EQL || bin.Op == token.NEQ) {
 									if kk, isK := core.ConstInt(bin.Y); isK {
-										if call, isCall := core.Unwrap(bin.X).(*ssa.Call); isCall && core.CalleeName(&call.Call) == "(*math/big.Int).Sign" && (subject == nil || subject == ssa.Value(call)) {
+										if call, isCall := core.Unwrap(bin.X).(*ssa.Call); isCall && core.CalleeName(core.NormCall(&call.Call)) == "(*math/big.Int).Sign" && (subject == nil || subject == ssa.Value(call)) {
 											eq := (bin.Op == token.EQL) == (i == 0)
 											if eq {
 												if excl[kk] {
